@@ -1,6 +1,7 @@
 """C11 -- binary-to-text and wire codecs are exact inverses on their whole domain."""
 from framework import Func
 from bip_utils import Base58Encoder, Base58Decoder, Base58Alphabets
+from bip_utils import Base58XmrEncoder, Base58XmrDecoder
 
 ALPHS = [Base58Alphabets.BITCOIN, Base58Alphabets.RIPPLE]
 
@@ -58,6 +59,138 @@ FUNCS = {
 }
 
 
+# ------------------------------------------------------------------ Monero block Base58
+B58 = "123456789ABCDEFGHJKLMNPQRSTUVWXYZabcdefghijkmnopqrstuvwxyz"
+
+
+def _xmr_width(d):
+    """Least e with 58^e >= 256^d (the published block widths 0,2,3,5,6,7,9,10,11)."""
+    e = 0
+    while 58 ** e < 256 ** d:
+        e += 1
+    return e
+
+
+def xmr_ref_encode(b):
+    """Monero Base58 from its definition: 8-byte blocks, fixed-width big-endian base-58 digits."""
+    out = []
+    for i in range(0, len(b), 8):
+        blk = b[i:i + 8]
+        v, w = int.from_bytes(blk, "big"), _xmr_width(len(blk))
+        out.append("".join(B58[(v // 58 ** (w - 1 - k)) % 58] for k in range(w)))
+    return "".join(out)
+
+
+def xmr_blocks(s):
+    """(block string, byte width) list as the format defines it, or None when the length is impossible."""
+    widths = {_xmr_width(d): d for d in range(9)}
+    full, last = divmod(len(s), 11)
+    if last not in widths:
+        return None
+    bl = [(s[i * 11:(i + 1) * 11], 8) for i in range(full)]
+    if last:
+        bl.append((s[full * 11:], widths[last]))
+    return bl
+
+
+def xmr_is_canonical(s):
+    bl = xmr_blocks(s)
+    if bl is None or any(c not in B58 for c in s):
+        return False
+    for t, d in bl:
+        v = 0
+        for c in t:
+            v = v * 58 + B58.index(c)
+        if v >= 256 ** d:
+            return False
+    return True
+
+
+def rt_xmr(a):
+    b, = a
+    s = Base58XmrEncoder.Encode(b)
+    if s != xmr_ref_encode(b):
+        return "Monero Base58 of %s is %r, the standard encoding is %r" % (b.hex(), s, xmr_ref_encode(b))
+    d = Base58XmrDecoder.Decode(s)
+    return None if d == b else "Monero Base58 decode(encode(b)) = %s != b" % d.hex()
+
+
+def canon_xmr(a):
+    # C11 only: a *canonical* accepted string re-encodes to itself.  Non-canonical (overflowing) blocks
+    # accepted by the decoder are defect F2 and belong to property C10, not to this check.
+    s, = a
+    if not xmr_is_canonical(s):
+        return None
+    d = Base58XmrDecoder.Decode(s)
+    e = Base58XmrEncoder.Encode(d)
+    return None if e == s else "canonical string %r decodes to %s which re-encodes to %r" % (s, d.hex(), e)
+
+
+FUNCS.update({
+    "xmr_encode": Func(model=lambda m, a: m.call("xmr_encode", a[0]),
+                       impl=lambda a: Base58XmrEncoder.Encode(a[0]), direct=rt_xmr),
+    "xmr_decode": Func(model=lambda m, a: m.call("xmr_decode", a[0]),
+                       impl=lambda a: Base58XmrDecoder.Decode(a[0]), direct=canon_xmr),
+})
+
+
+def gen_xmr(ctx):
+    rng = ctx.rng
+    ctx.run("xmr_encode", [b""], "len0", trivial=True)
+    ctx.run("xmr_decode", [""], "len0", trivial=True)
+    for x in range(256):
+        ctx.run("xmr_encode", [bytes([x])], "len1")
+    for x in (range(65536) if not ctx.quick else list(range(0, 512)) + [rng.randrange(65536) for _ in range(500)]):
+        ctx.run("xmr_encode", [x.to_bytes(2, "big")], "len2")
+    # every block length 1..8 and the lengths around multiples of 8; boundary values of each width
+    for n in list(range(1, 26)) + [63, 64, 65, 69, 72]:
+        for fill in (0, 1, 0xFF):
+            ctx.run("xmr_encode", [bytes([fill]) * n], "blocklen")
+        ctx.run("xmr_encode", [bytes(n - 1) + b"\x01"], "blocklen")
+        ctx.run("xmr_encode", [b"\x01" + bytes(n - 1)], "blocklen")
+    for d in range(1, 9):
+        w = _xmr_width(d)
+        for v in (0, 1, 57, 58, 58 ** (w - 1) - 1, 58 ** (w - 1), 256 ** d - 1, 256 ** (d - 1), 256 ** (d - 1) - 1):
+            if 0 <= v < 256 ** d:
+                ctx.run("xmr_encode", [v.to_bytes(d, "big")], "blockval")
+                ctx.run("xmr_encode", [bytes(8) + v.to_bytes(d, "big")], "blockval")
+        # decode side: block strings at and beyond the canonical limit (the latter are the F2 class; the model is
+        # the code as it is, so model == implementation there and C11's direct check does not apply)
+        for v in (0, 1, 256 ** d - 1, 256 ** d, 58 ** w - 1):
+            t = "".join(B58[(v // 58 ** (w - 1 - k)) % 58] for k in range(w))
+            ctx.run("xmr_decode", [t], "blockval")
+            ctx.run("xmr_decode", ["1" * 11 + t], "blockval")
+    # all strings of length 0..2 over the alphabet, and every impossible length
+    for c in B58:
+        ctx.run("xmr_decode", [c], "len1")
+        for d in (B58 if not ctx.quick else rng.sample(B58, 10)):
+            ctx.run("xmr_decode", [c + d], "len2")
+    for n in range(0, 36):
+        ctx.run("xmr_decode", ["1" * n], "lengths")
+        ctx.run("xmr_decode", ["z" * n], "lengths")
+        ctx.run("xmr_decode", ["".join(rng.choice(B58) for _ in range(n))], "lengths")
+    ctx.note_exhaustive("Monero Base58 encode: all byte strings of length 0..1 (and 2 in thorough); decode: all "
+                        "alphabet strings of length 0..1 (2 in thorough), all lengths 0..35")
+    for _ in range(ctx.n(300, 5000)):
+        b = rand_bytes(rng, 140)
+        ctx.run("xmr_encode", [b], "rand")
+        s = Base58XmrEncoder.Encode(b)
+        ctx.run("xmr_decode", [s], "valid")
+        t = list(s)
+        k = rng.randrange(5)
+        if t and k == 0:
+            t[rng.randrange(len(t))] = rng.choice(B58)
+        elif t and k == 1:
+            t[rng.randrange(len(t))] = rng.choice("0OIl+/ éK\U0001F600")
+        elif k == 2:
+            t.insert(rng.randrange(len(t) + 1), rng.choice(B58))
+        elif t and k == 3:
+            del t[rng.randrange(len(t))]
+        else:
+            t = t[:rng.randrange(len(t) + 1)]
+        ctx.run("xmr_decode", ["".join(t)], "mutated")
+
+
 def rand_bytes(rng, maxlen=200):
     k = rng.choice([0, 0, 1, 2, 3])
     n = rng.choice([0, 1, 2, 3, 4, 5, 8, 16, 20, 21, 25, 32, 33, 37, 64, 65, 78, 82, rng.randrange(maxlen)])
@@ -65,6 +198,11 @@ def rand_bytes(rng, maxlen=200):
 
 
 def generate(ctx):
+    gen_b58(ctx)
+    gen_xmr(ctx)
+
+
+def gen_b58(ctx):
     rng = ctx.rng
     alph_s = ["123456789ABCDEFGHJKLMNPQRSTUVWXYZabcdefghijkmnopqrstuvwxyz",
               "rpshnaf39wBUDNEGHJKLM4PQRST7VWXYZ2bcdeCg65jkm8oFqi1tuvAxyz"]
